@@ -320,6 +320,10 @@ Inductive sink :=
                    of the module state before/after every generation of the cross-project sequences) *)
 | SkCarried     (* interpreter-lifetime state that a generation writes and a later one reads (a cache, a memo, a
                    mutated module-level container).  No row may have it. *)
+| SkReadInput   (* file-system read of an INPUT (configuration, schema/query files, files to copy, the config lookup) *)
+| SkWriteTarget (* mkdir / write_text into the target: writes, never reads *)
+| SkTargetExists(* the existence test of the target package directory before mkdir: see generate_into *)
+| SkReadTarget  (* a read of what a previous generation left in the target.  No row may have it. *)
 | SkFsSections  (* isort with source paths (the default configuration): section placement consults the filesystem
                    below cwd.  No row may have it. *).
 
@@ -335,6 +339,8 @@ Definition sink_name (k : sink) : string :=
   | SkRaw => "raw" | SkErrorText => "errortext" | SkInput => "input"
   | SkPureText => "puretext" | SkFsSections => "fs-sections"
   | SkConstant => "constant" | SkCarried => "carried"
+  | SkReadInput => "read-input" | SkWriteTarget => "write-target" | SkTargetExists => "target-exists"
+  | SkReadTarget => "read-target"
   end.
 
 (* what an observer of the emitted text can learn from one iteration [xs] of the set, per sink;
@@ -352,6 +358,7 @@ Definition observe (k : sink) (xs : list string) (probe : string) : list string 
   | SkFsSections => []
   | SkConstant => []
   | SkCarried => []
+  | SkReadInput => [] | SkWriteTarget => [] | SkTargetExists => [] | SkReadTarget => []
   end.
 (* sinks whose observation can depend on the iteration order *)
 Definition order_sensitive (k : sink) : bool :=
@@ -374,6 +381,29 @@ Definition observe_history {St : Type} (k : sink) (initial : St) (step : St -> S
   match k with
   | SkCarried => Nat.iter n_earlier step initial
   | _ => initial
+  end.
+
+(* ------------------------------------------------------------------ the target directory as the generator meets it *)
+(* PackageGenerator.generate:  if not self.package_path.exists(): self.package_path.mkdir()  — then every file is
+   written with write_text.  The target is absent, a file, or a directory with content; mkdir() has no
+   parents=True (FileNotFoundError when the parent is missing); exists() is true for a FILE too, then the first
+   write fails (NotADirectoryError). *)
+Inductive tstate := TAbsent | TFile | TDir (fs : fsmap).
+Inductive gen_result := GenOk (t : tstate) | GenErr (e : string).
+Definition generate_into (parent_ok : bool) (p : list (string * string)) (t : tstate) : gen_result :=
+  match t with
+  | TDir fs => GenOk (TDir (write_all p fs))
+  | TAbsent => if parent_ok then GenOk (TDir (write_all p [])) else GenErr "FileNotFoundError"
+  | TFile => match p with [] => GenOk TFile | _ => GenErr "NotADirectoryError" end
+  end.
+(* what a site of the given sink learns about the target a previous generation left *)
+Definition target_sensitive (k : sink) : bool := match k with SkReadTarget => true | _ => false end.
+Definition observe_target (k : sink) (t : tstate) : list (string * string) :=
+  match k, t with
+  | SkReadTarget, TDir fs => fs
+  | SkTargetExists, TAbsent => []
+  | SkTargetExists, _ => [("<exists>", "")]
+  | _, _ => []
   end.
 
 Definition cg := "client_generators/".
@@ -492,6 +522,8 @@ Definition site_table : list site := [
   St "schema.py" "walk_graphql_files" "listing" "path.glob('**/*')" SkSorted
     "the only caller sorts the paths (load_dir)";
   St "settings.py" "ClientSettings" "ambient" "Path.cwd()" SkInput "default target_package_path";
+  St "utils.py" "<module>" "formatter" "ISORT_CONFIG = isort.Config(src_paths=())" SkPureText
+    "what makes isort a function of its text: no source path";
   St "utils.py" "ast_to_str" "formatter" "fix_code(code, remove_all_unused_imports=True)" SkPureText "autoflake";
   St "utils.py" "ast_to_str" "formatter" "isort.code(code, config=ISORT_CONFIG)" SkPureText
     "since f6e5e03: Config(src_paths=()) (layout)";
@@ -509,10 +541,43 @@ Definition site_table : list site := [
   St "client_generators/constants.py" "<module>" "state:module" "UPLOAD_IMPORT = ast" SkConstant "";
   St "graphql_schema_generators/constants.py" "<module>" "state:module" "STANDARD_SCALARS = dict" SkConstant "";
   St "utils.py" "<module>" "state:module" "PYDANTIC_RESERVED_FIELD_NAMES = list" SkConstant "";
+  St "client_generators/package.py" "PackageGenerator._copy_files" "fs" "source_path.read_text(...)" SkReadInput "";
+  St "client_generators/package.py" "PackageGenerator._copy_files" "fs" "target_path.write_text(...)" SkWriteTarget "";
+  St "client_generators/package.py" "PackageGenerator._generate_client" "fs" "client_file_path.write_text(...)" SkWriteTarget "";
+  St "client_generators/package.py" "PackageGenerator._generate_custom_fields" "fs" "file_path.write_text(...)" SkWriteTarget "";
+  St "client_generators/package.py" "PackageGenerator._generate_custom_fields_typing" "fs" "file_path.write_text(...)" SkWriteTarget "";
+  St "client_generators/package.py" "PackageGenerator._generate_custom_mutations" "fs" "file_path.write_text(...)" SkWriteTarget "";
+  St "client_generators/package.py" "PackageGenerator._generate_custom_queries" "fs" "file_path.write_text(...)" SkWriteTarget "";
+  St "client_generators/package.py" "PackageGenerator._generate_enums" "fs" "enums_file_path.write_text(...)" SkWriteTarget "";
+  St "client_generators/package.py" "PackageGenerator._generate_fragments" "fs" "file_path.write_text(...)" SkWriteTarget "";
+  St "client_generators/package.py" "PackageGenerator._generate_init" "fs" "init_file_path.write_text(...)" SkWriteTarget "";
+  St "client_generators/package.py" "PackageGenerator._generate_input_types" "fs" "input_types_file_path.write_text(...)" SkWriteTarget "";
+  St "client_generators/package.py" "PackageGenerator._generate_result_types" "fs" "file_path.write_text(...)" SkWriteTarget "";
+  St "client_generators/package.py" "PackageGenerator.generate" "fs" "self.package_path.exists(...)" SkTargetExists "the one thing the generator learns about the target: whether it exists (generate_into)";
+  St "client_generators/package.py" "PackageGenerator.generate" "fs" "self.package_path.mkdir(...)" SkWriteTarget "";
+  St "config.py" "get_config_file_path" "fs" "directory.joinpath(file_name).exists(...)" SkReadInput "";
+  St "contrib/extract_operations.py" "ExtractOperationsPlugin._generate_operations_module" "fs" "operations_path.write_text(...)" SkWriteTarget "";
+  St "graphql_schema_generators/schema.py" "generate_graphql_schema_graphql_file" "fs" "Path(target_file_path).write_text(...)" SkWriteTarget "";
+  St "graphql_schema_generators/schema.py" "generate_graphql_schema_python_file" "fs" "Path(target_file_path).write_text(...)" SkWriteTarget "";
+  St "schema.py" "load_graphql_files_from_path" "fs" "path.is_dir(...)" SkReadInput "";
+  St "schema.py" "read_graphql_file" "fs" "open(...)" SkReadInput "";
+  St "schema.py" "walk_graphql_files" "fs" "file_.is_file(...)" SkReadInput "";
+  St "settings.py" "assert_class_is_defined_in_file" "fs" "file_path.read_text(...)" SkReadInput "";
+  St "settings.py" "assert_path_exists" "fs" "Path(path).exists(...)" SkReadInput "";
+  St "settings.py" "assert_path_is_valid_directory" "fs" "Path(path).is_dir(...)" SkReadInput "";
+  St "settings.py" "assert_path_is_valid_file" "fs" "Path(path).is_file(...)" SkReadInput "";
   St "utils.py" "process_name" "construct" "set(name)" SkNone "";
   St "utils.py" "process_name" "construct" "{'_'}" SkNone "";
   St "utils.py" "process_name" "eq" "set(name)" SkMember "";
   St "utils.py" "process_name" "eq" "{'_'}" SkMember ""
+].
+
+(* Rows whose sink the scan's intra-procedural data-flow cannot derive (the value escapes the function): the
+   DOWNSTREAM expression that erases the order.  The scan must find it, verbatim, in the named function. *)
+Definition downstream : list ((string * string * string * string) * (string * string * string)) := [
+  (("client_generators/result_types.py", "ResultTypesGenerator._get_typename_values", "iter:list",
+    "set(possible_types_names) - set(types_names)"),
+   ("client_generators/result_fields.py", "generate_typename_annotation", "sorted(typename_values)"))
 ].
 
 (* ------------------------------------------------------------------ sexp interface *)
@@ -572,9 +637,24 @@ Definition run_nondet (e : sexp) : sexp :=
                     L [L (map (fun p => L [A (fst p); sStrs (snd p)]) imps); sStrs moved] :: go r st'
                 end) h s0)
       | _, _ => sErr "procstate" end
+  | L [A "stinitial"] => L (map (fun p => L [A (fst p); sStrs (snd p)]) st_initial)
+  | L [A "downstream"] =>
+      L (map (fun d => let '((f, fn, c, e), (f2, fn2, e2)) := d in
+                       L [L [A f; A fn; A c; A e]; L [A f2; A fn2; A e2]]) downstream)
   | L [A "sites"] =>
       L (map (fun s => L [A (s_file s); A (s_fn s); A (s_ctx s); A (s_expr s); A (sink_name (s_sink s));
-                          sB (order_sensitive (s_sink s) || env_sensitive (s_sink s) || history_sensitive (s_sink s)); A (s_note s)]) site_table)
+                          sB (order_sensitive (s_sink s) || env_sensitive (s_sink s) || history_sensitive (s_sink s) || target_sensitive (s_sink s)); A (s_note s)]) site_table)
+  | L [A "generateinto"; pk; p; A st; fs] =>
+      match dB pk, dList (dPair dStr dStr) p, dList (dPair dStr dStr) fs with
+      | Some parent_ok, Some pp, Some f =>
+          let t := if String.eqb st "absent" then TAbsent else if String.eqb st "file" then TFile else TDir f in
+          match generate_into parent_ok pp t with
+          | GenErr e => L [A "err"; A e]
+          | GenOk TAbsent => L [A "ok"; A "absent"]
+          | GenOk TFile => L [A "ok"; A "file"]
+          | GenOk (TDir r) => L [A "ok"; L (map (fun x => L [A (fst x); A (snd x)]) r)]
+          end
+      | _, _, _ => sErr "generateinto" end
   | L [A "layout"; sl; cwd; A target; rg; early; imps] =>
       match dStrs sl, dStrs cwd, dB rg, dStrs early, dList (dPair dNat dStr) imps with
       | Some stdlib, Some c, Some regen, Some ea, Some is =>
